@@ -182,6 +182,9 @@ def params_update(eng, st, p, args, kw, node):
 def params_get_numeric(eng, st, p, args, kw, node):
     has, val = _p(eng, st, p)
     k = _key(eng, args[0], st)
+    okk, ck = concrete(args[0])
+    if okk:
+        eng.numeric_param_keys.add(ck)
     dflt = args[1] if len(args) > 1 else kw.get("default", const(0))
     target = args[2] if len(args) > 2 else kw.get("target_type")
     is_float = isinstance(target, VFunc) and target.name == "float"
@@ -345,6 +348,11 @@ def result_setitem(eng, st, r, args, kw, node):
 
 
 SCHEMA["Result"]["methods"].update({"__getitem__": result_getitem, "__setitem__": result_setitem})
+# value pools used by the native input generator (replay/fuzz.py); they do not restrict the symbolic values
+SCHEMA["Result"]["pools"] = {
+    "r_status": ["PASS", "FAIL", "ERROR", "WARN", "SKIP", "CANCEL", "INTERRUPTED", "UNKNOWN", "pass", "fail", "bogus"],
+    "r_time": ["0.5", "1.0", "2.0", "10.0"],
+}
 
 
 # ---------------------------------------------------------------------------- nodes / objects / workers
